@@ -372,6 +372,67 @@ def stream_api(ctx):
         ctx.sample(dict(stream='api', **metas[0]))
 
 
+def _chain_task(text):
+    """Every name of the text (all scopes, definitions and references): every documented attribute, the whole
+    parent() chain up to the module, and every position-taking query asked AT the name, results walked."""
+    import jedi
+    import jedi.api.classes as cl
+    out = []
+    try:
+        s = jedi.Script(text)
+        names = s.get_names(all_scopes=True, definitions=True, references=True)
+    except Exception as e:
+        return [('get_names', None, common.exc_sig(e))]
+    seen_pos = set()
+    for n in names[:60]:
+        acc = []
+        _walk_result(n, 1, acc, 'get_names')
+        # the whole chain of lexical parents
+        cur, hops = n, 0
+        while cur is not None and hops < 12:
+            try:
+                cur = cur.parent()
+            except Exception as e:
+                acc.append(('get_names' + '.parent()' * (hops + 1), common.exc_sig(e)))
+                break
+            hops += 1
+            if isinstance(cur, cl.BaseName):
+                _walk_result(cur, 0, acc, 'get_names' + '.parent()' * hops)
+        pos = (n.line, n.column)
+        if None not in pos and pos not in seen_pos and len(seen_pos) < 25:
+            seen_pos.add(pos)
+            for m in ('goto', 'infer', 'get_references', 'help'):
+                try:
+                    for r in getattr(s, m)(*pos)[:3]:
+                        _walk_result(r, 1, acc, m)
+                        try:
+                            p = r.parent()
+                            if isinstance(p, cl.BaseName):
+                                _walk_result(p, 1, acc, m + '.parent()')
+                        except Exception as e:
+                            acc.append((m + '.parent()', common.exc_sig(e)))
+                except Exception as e:
+                    acc.append((m, common.exc_sig(e)))
+        for where, sig in acc[:4]:
+            out.append((where, pos, sig))
+    return out
+
+
+def stream_chains(ctx):
+    """Directed: the fixed snippets (every syntactic shape the generator knows, incl. nested comprehensions,
+    lambdas in classes, decorators, nested functions) and a few corpus windows, exhaustively over their names."""
+    texts = list(SNIPPETS) + corpus_snippets(ctx.rng, ctx.n(12, 150))
+    results = common.pmap(_chain_task, texts, chunksize=2, timeout=3000)
+    n_names = 0
+    for text, recs in zip(texts, results):
+        ctx.count('chains', text, nontrivial=True)
+        for where, pos, sig in recs:
+            ctx.deviation(dict(stream='api', exc=sig['exc'], site=sig['site']),
+                          dict(text=text, method='get_names', position=pos, attribute=where, error=sig),
+                          '%s of a name at %r raised %s at %s' % (where, pos, sig['exc'], sig['site']))
+    ctx.stat('chains_texts', len(texts))
+
+
 def run(ctx):
     common.setup_jedi(os.path.join(ctx.tmp, 'cache'))
     ctx.proofs()
@@ -382,6 +443,7 @@ def run(ctx):
     ctx.assumptions += ['only the position contract is a theorem; totality of the inference engine is explored by the api stream (partial)',
                         'typeshed stubs are absent from this tree: crash classes caused by that are listed known findings, matched by exception type and innermost jedi frame']
     stream_validate(ctx)
+    stream_chains(ctx)
     stream_api(ctx)
 
 
